@@ -78,7 +78,7 @@ Lemma inv3_step pre t : Inv3 pre -> step_ok pre t = true -> Inv3 (pre ++ [t]).
 Proof.
   intros (I2 & P0 & P1 & P2) H. pose proof (inv2_step _ _ I2 H) as I2'.
   split; [exact I2'|]. destruct t as [[o r] ev]. pose proof I2 as (A & B & C & D & E).
-  destruct o as [name f|name|name|uid|uid]; cbn [step_ok] in H; try discriminate.
+  destruct o as [name f|name|name|uid|uid|name]; cbn [step_ok] in H; try discriminate.
   - (* OpenDB: an open call for name *)
     assert (Hcases : (ev_open ev = [] /\ ev_drop ev = [] /\ r <> RDead) \/
                      (exists u, r = RHandle u /\ ev = [UOpen name u] /\ used_uid u pre = false)).
@@ -88,7 +88,7 @@ Proof.
       - destruct f.
         + apply andb_true_iff in H. destruct H as [H1 H2]. apply cres_eqb_eq in H1. apply uevents_eqb_eq in H2. subst.
           left. repeat split; discriminate.
-        + destruct r as [u| | | | | |]; try discriminate. apply andb_true_iff in H. destruct H as [H1 H2].
+        + destruct r as [u| | | | | | |]; try discriminate. apply andb_true_iff in H. destruct H as [H1 H2].
           apply negb_true_iff in H1. apply uevents_eqb_eq in H2. right. exists u. repeat split; assumption. }
     destruct Hcases as [(Ho & Hd & Hr)|(u & -> & -> & Hfresh)].
     + (* cached or failed open: cur unchanged, droppable(name) becomes true *)
